@@ -121,11 +121,11 @@ def join_env(e1, e2):
 
 
 class Config(object):
-    def __init__(self, scaling, proj, h):
-        self.scaling, self.proj, self.h = scaling, proj, h
+    def __init__(self, scaling, proj, h, bounds="both"):
+        self.scaling, self.proj, self.h, self.bounds = scaling, proj, h, bounds     # bounds: both | lower-only | upper-only | none
 
     def __repr__(self):
-        return "scaling=%s,projections=%s,h=%s" % (self.scaling, self.proj, self.h)
+        return "scaling=%s,projections=%s,h=%s%s" % (self.scaling, self.proj, self.h, "" if self.bounds == "both" else ",bounds=" + self.bounds)
 
 
 class Issue(object):
@@ -184,7 +184,9 @@ class Interp(object):
         a["lh"] = NUM if c.h else NONE
         a["prox_uh"] = V("user", tag="prox_uh", truth=True) if c.h else NONE
         a["argsf"] = a["argsh"] = a["argsprox"] = V("tuple", items=None)
-        a["bounds"] = V("tuple", items=(vec("U", tag="user.xl"), vec("U", tag="user.xu")), truth=True)
+        lo = vec("U", tag="user.xl") if c.bounds in ("both", "lower-only") else NONE
+        up = vec("U", tag="user.xu") if c.bounds in ("both", "upper-only") else NONE
+        a["bounds"] = NONE if c.bounds == "none" else V("tuple", items=(lo, up), truth=True)
         a["projections"] = V("list", items=(V("user", tag="proj"),), truth=True) if c.proj else V("list", items=(), truth=False)
         a["npt"] = a["rhobeg"] = a["maxfun"] = NONE
         a["nsamples"] = NONE
